@@ -420,6 +420,10 @@ func VerifC07_Layer() {
 		k = ks[vChoice(len(ks))]
 	}
 	lens := vLens(k)
+	if k == 8 {
+		// up to the longest ID string (31 8-bit characters)
+		lens = append(lens, 52, 59, 74)
+	}
 	var n int
 	if vParam("alllens", 0) == 1 {
 		n = vLen(0, lens[len(lens)-1]+vParam("extra", 8))
